@@ -68,5 +68,9 @@ CLAIMS = {
                 text="No panic for any operator x operand pair of the catalogue at widths 8, 16, 32 and 64 (named wide integers: 2^40, i64::MIN/MAX) through all three routes incl. parse-time folding, nor for random operands; "
                      "invalid casts, -MIN, abs(MIN), MIN % -1, float ^ unrepresentable exponent and wrong operand kinds must be error values.",
                 note="Trusted: TLC, ValSem.tla; recorder built with overflow checks so that wrapping arithmetic cannot hide."),
+    "C06": dict(category=MC, technique="TLC exploration of ALL token sequences (<= 7/8) and ALL character strings (<= 5/6) through the implementation-shaped front-end/builder models with explicit failure states + replay of each of them into every entry point of the real library, tallied against TLC's state count + hostile big inputs in separate processes",
+                text="MC_Tok: no failure state (index, unwrap, assert) reachable in preconditions -> flat builder -> compile -> deepen -> flatten nor in the deep builder for any token sequence; accepted iff not in a must-reject class; MC_Lex: tokenizer model total on every string. "
+                     "Every enumerated text goes through flat, deep, uncompiled, eval_str, parse_val and both statement parsers (+ evaluation, conversions, unparse, listings, partial on accepted ones); outcome must be ok or err. Soup of 1000 tokens and nesting to 100 run in their own process.",
+                note="Trusted: TLC; the panic capture of the recorder (catch_unwind; an abort kills the pipeline and is reported). Hangs are not decided beyond 'everything returned'; deeper recursion limits of the deep form are out of scope as the property says."),
 }
 NOT_YET = {}
